@@ -139,7 +139,8 @@ def r2_scd_in_response_to(run):
               ld.loc(c))
     # the check is not skippable: every solicited accepting path completes it
     known = "self.in_response_to in self.outstanding_queries"
-    srcs = [b.id for b in lcfg.by_kind("true") if unparse(b.ast) == known]
+    srcs = [b.id for b in lcfg.nodes if b.kind in ("true", "false") and
+            Q(known, True) in lcfg.branch_atoms(b.id)]
     run.require(srcs, "loads: solicited branch vanished")
     wit = unguarded_path(lcfg, srcs[0], [lcfg.return_exit], [nd.id],
                          lambda e, pol: False)
@@ -458,8 +459,10 @@ def r7_own_endpoints(run):
         for k, v in zip(d.keys, d.values):
             if isinstance(k, ast.Constant) and k.value == "return_addrs":
                 val = v
-    run.check(val is not None and unparse(val) ==
-              "self.service_urls(binding=binding)", "R7",
+    run.check(val is not None and isinstance(val, ast.Call) and
+              attr_chain(val.func) == "self.service_urls" and
+              arg_of(val, 0, "binding") is not None and
+              unparse(arg_of(val, 0, "binding")) == "binding", "R7",
               pr.qual + "::return_addrs", "service_urls(binding=binding)",
               "return_addrs <- %s" % unparse(val), pr.loc())
     si = m.func("response.StatusResponse.__init__")
